@@ -185,4 +185,22 @@ PROPS = {
                         "and the oracle compares which statement function actually ran with which parameters, and every Describe reply.",
              level_note="Trusted: Lean kernel; custom StatementCache/PortalCache implementations are out of scope (default caches only).",
              technique="Lean 4 proof (association-list refinement + handler case analysis) + differential correspondence with NameSpec oracle"),
+    "C13": P("Pw.Props.C13",
+             ["Pw.Props.C13.C13_skip_flush_sync", "Pw.Props.C13.C13_data", "Pw.Props.C13.C13_done", "Pw.Props.C13.C13_fail",
+              "Pw.Props.C13.C13_foreign", "Pw.Props.C13.C13_copyin_response", "Pw.Props.C13.C13_handler_emits_no_error",
+              "Pw.Props.C13.C13_one_cycle"],
+             [("copy", 3000, 200000)], ["Consts"],
+             design_ref="§7 C13",
+             level_text="Lean theorems: in COPY mode any run of Flush/Sync messages is skipped, a CopyData payload reaches the handler "
+                        "byte-exact and only that message is consumed, CopyDone is end-of-stream, CopyFail and every other message type "
+                        "are a non-nil non-EOF error; the COPY reader is a function of the input only (it cannot write: by type); "
+                        "CopyInResponse announces the requested format for each declared column; no handler program - COPY reads "
+                        "included - can emit an ErrorResponse or ReadyForQuery, and every answered simple-query cycle (aborted COPY or not) "
+                        "contains at most one ErrorResponse and exactly one ReadyForQuery (C13_one_cycle, via the C05 invariant over all "
+                        "programs). Stray COPY messages outside COPY mode: C06_flush. Tie: differential campaign (CopyData/CopyDone/"
+                        "CopyFail/Flush/Sync/foreign/oversized during COPY, handlers that stop early or return the error, stray COPY "
+                        "messages afterwards); the oracle compares the reads the real handler observed and the reply notation with a "
+                        "simulation done by the generator.",
+             level_note="Trusted: Lean kernel; harness. Extended-protocol COPY (Execute) shares the same reader; its cycle end is Sync.",
+             technique="Lean 4 proof (induction on the message list / handler programs) + differential correspondence with expectation oracle"),
 }
